@@ -10,6 +10,9 @@ func assertFunctions(fns []*funcDef) error {
 
 	nameMap := make(map[string]bool)
 	for _, funcDef := range fns {
+		if funcDef == nil {
+			return errEmptyListEntry
+		}
 		if _, exists := nameMap[funcDef.Name]; exists {
 			return errDuplicateFunction
 		}
@@ -33,6 +36,15 @@ func assertFunctions(fns []*funcDef) error {
 
 // assertStepDef validates the step definition.
 func assertStepDef(def *stepDef, funcs []*funcDef) error {
+	if def == nil {
+		return errEmptyListEntry
+	}
+	for _, funcDef := range funcs {
+		if funcDef == nil {
+			return errEmptyListEntry
+		}
+	}
+
 	// Step name is required.
 	if def.Name == "" {
 		return errStepNameRequired
